@@ -55,7 +55,7 @@ COMPONENTS = {
 PROBES = ["file_system_changed_between_parses", "sampled_alphabet_history_run", "history_with_include_files", "exhaustive_history_run", "failing_parse_scope_depth_ge2", "main_program0_path", "same_unit_name_consecutive",
           "compared_in_clean_state", "compared_after_failure", "block_counter_nonzero_at_compare",
           "fparser1_interleaved", "create_switches_std", "stream_fault_failure",
-          "failure_in_unclean_state", "exit_trapped"]
+          "failure_in_unclean_state", "exit_trapped", "near_twin_sources_both_parsed"]
 STATE_MEASURE = ("distinct (std, clean, open scope name, table-name set, memo-size bucket) after "
                  "each operation, plus distinct op-kind sequences")
 
@@ -90,6 +90,70 @@ def _program(st, sw, std, cfg, tag, force=None):
         "max_cuts": 1, "comments": 0.1, "semi": 0.05, "base_indent": 1, "token_cut": False,
         "trail": 0.1})
     return rend.text, stmts
+
+
+_SIMPLE_LINE = None
+
+
+def _semi_join(text, sw, rate=0.5):
+    """Join some consecutive simple statements with ';' (the fresh-process reference decides what
+    the result must be, so the transformation need not preserve validity)."""
+    import re
+
+    global _SIMPLE_LINE
+    if _SIMPLE_LINE is None:
+        _SIMPLE_LINE = re.compile(r"^\s*(call\b|print\b|write\b|\w+(\([^!&]*\))?\s*=[^=])[^!&;]*$", re.I)
+    lines = text.split("\n")
+    out = []
+    for ln in lines:
+        if (out and _SIMPLE_LINE.match(ln) and _SIMPLE_LINE.match(out[-1].split(";")[-1])
+                and sw.random() < rate):
+            out[-1] = out[-1].rstrip() + "; " + ln.strip()
+        else:
+            out.append(ln)
+    return "\n".join(out)
+
+
+def _twin(text, sw):
+    """A near-twin of a source: equal to it up to letter case, or up to the contents of its
+    character literals, or up to blanks.  Parsed in the same history as the original, each
+    must still give its own fresh-process result."""
+    how = sw.choice(["lit_swapcase", "lit_swapcase", "code_upper", "lit_reverse", "both_case",
+                     "blanks"])
+    out = []
+    quote = None
+    buf = ""
+    for ch in text:
+        if quote is None:
+            if ch in "'\"":
+                quote = ch
+                out.append(ch)
+                buf = ""
+            elif ch == "!":
+                quote = "!"                    # a comment runs to the end of the line
+                out.append(ch)
+            else:
+                if how in ("code_upper", "both_case"):
+                    ch = ch.upper()
+                elif how == "blanks" and ch == " ":
+                    ch = "  "
+                out.append(ch)
+        elif quote == "!":
+            out.append(ch)
+            if ch == "\n":
+                quote = None
+        elif ch == quote or ch == "\n":
+            if how in ("lit_swapcase", "both_case"):
+                buf = buf.swapcase()
+            elif how == "lit_reverse":
+                buf = buf[::-1]
+            out.append(buf + ch)
+            quote = None
+        else:
+            buf += ch
+    if quote not in (None, "!"):
+        out.append(buf)
+    return "".join(out), how
 
 
 # Lines whose presence makes a parse fail through one particular exit of the parser each.
@@ -321,8 +385,19 @@ ALPHABET_POOL = {
     "X2": "module m\ncontains\nsubroutine s\nx = sin(1) + cos(2) + max(1, 2)\n"
           "end subroutine s\nend module m\n",
     "X3": "program p\nx = max(1, 2)\nblock\ny = 1\nend block\nend program p\n",
+    # near-twins: the same lines up to letter case, differing only inside character literals (and
+    # in the case of the code); anything remembered under a normalised spelling of a line shows
+    "V9": "subroutine tw(n)\ncharacter(len=12) :: a\na = 'Hello World'; n = 1\n"
+          "write(*, '(a, i3)') 'no. of items', n; n = 2\nif (a == \"it's\") n = 3; a = 'x!y'\n"
+          "end subroutine tw\n",
+    "X8": "SUBROUTINE TW(N)\nCHARACTER(LEN=12) :: A\nA = 'HELLO WORLD'; N = 1\n"
+          "WRITE(*, '(A, I3)') 'No. of Items', N; N = 2\nIF (A == \"IT'S\") N = 3; A = 'X!Y'\n"
+          "END SUBROUTINE TW\n",
+    "X9": "subroutine tw(n)\ncharacter(len=12) :: a\na = 'hello world'; n = 1\n"
+          "write(*, '(A, i3)') 'No. Of Items', n; n = 2\nif (a == \"It's\") n = 3; a = 'X!y'\n"
+          "end subroutine tw\n",
 }
-ALPHABET = ["c03", "c08", "V1", "V2", "V3", "V4", "V5", "V6", "V7", "V8", "I1", "I2", "I3", "I4",
+ALPHABET = ["c03", "c08", "V1", "V2", "V3", "V4", "V5", "V6", "V7", "V8", "V9", "I1", "I2", "I3", "I4",
             "I5", "Fa", "Fb", "Ba", "Db", "Wb"]
 for _k, _t in enumerate(F08_ONLY):
     ALPHABET_POOL["N%d" % _k] = _t
@@ -377,7 +452,7 @@ def _exhaustive_case(index):
         else:
             ops.append(["parse", sym, plain, "string", None])
     for std in ("f2003", "f2008"):
-        for x in ("X1", "X2", "X3", "X4", "X5", "X6", "X7"):
+        for x in ("X1", "X2", "X3", "X4", "X5", "X6", "X7", "X8", "X9"):
             ops.append(["create", std])
             ops.append(["parse", x, plain, "string", None])
         if std == "f2003" and ("c08" in hist or "V6" in hist):
@@ -432,7 +507,11 @@ def generate(run_seed, cfg):
     for k in range(npool):
         std = sw.choice(["f2003", "f2003", "f2008"])
         text, _ = _program(st, sw, std, cfg, "v%d" % k)
+        if sw.random() < 0.35:
+            text = _semi_join(text, sw)
         pool["v%d" % k] = text
+        if sw.random() < 0.4:
+            pool["w%d" % k], _how = _twin(text, sw)
         # an invalid sibling, biased to fail while scopes are open
         data = text.encode()
         if sw.random() < 0.45:
@@ -644,6 +723,10 @@ def execute(case):
         fs = host.SimFS({k: v.encode("utf-8") for k, v in case["fs"].items()}, {},
                         stats).install("c09-%d" % os.getpid())
         probe("history_with_include_files")
+    parsed_keys = set(op[1] for op in case["ops"] if op[0] == "parse")
+    if any(k.startswith("w") and "v" + k[1:] in parsed_keys for k in parsed_keys) or (
+            "V9" in parsed_keys):
+        probe("near_twin_sources_both_parsed")
     if "exhaustive_index" in case:
         if case.get("sampled_alphabet_history"):
             probe("sampled_alphabet_history_run")
